@@ -2,7 +2,7 @@
 C09 — The pool runs every accepted task exactly once and reports it faithfully.
 
 Model   : lean/JRV/Model/Pool.lean (labelled transition system at synchronisation-operation granularity)
-Theorems: lean/JRV/Properties/C09.lean (invariants in lean/JRV/Lemmas/Pool.lean)
+Theorems: lean/JRV/Properties/C09.lean (invariants in lean/JRV/Lemmas/Pool*.lean, PoolC09*.lean)
 Tie     : extracted lock discipline / growth / retirement facts (tools/extractors/pool.py) + LOCKSTEP correspondence:
           every execution of the real ThreadPool under the deterministic scheduler (harness/sched.py) is replayed action
           by action by the model and the projections must agree after every step.
@@ -14,6 +14,8 @@ import poolcommon as pc
 
 REQUIRED_THEOREMS = [
     "C09_at_most_once", "C09_exec_count_phase", "C09_single_holder", "C09_queue_nodup",
+    "C09_future_faithful", "C09_result_faithful", "C09_none_after_stop", "C09_fifo_single", "C09_single_worker",
+    "C09_queued_has_server", "C09_eventually_once", "C09_eventually_begins",
     "C09_gen_poolUnlockedAccesses", "C09_gen_poolPendingStores", "C09_gen_poolGrowthRule", "C09_gen_poolRetireRule",
 ]
 
